@@ -247,7 +247,7 @@ def apply_directives(body, directives, unit):
         raise TemplateError(f"unknown directive `{key}`")
 
 
-def splice(template_path, repo_root, canary=False, quarantine=()):
+def splice(template_path, repo_root, canary=False, quarantine=(), inline=None):
     """returns (generated_text, fns: list[FnInfo], unit_meta)"""
     lines = open(template_path, encoding="utf-8").read().split("\n")
     unit = {"rules": list(DEFAULT_RULES), "features_on": (), "features_off": ("open-metrics", "loud"), "subs": []}
@@ -331,7 +331,13 @@ def splice(template_path, repo_root, canary=False, quarantine=()):
                 src_path = os.path.join(repo_root, kv["src"])
                 if not os.path.exists(src_path):
                     raise LostAnchor(f"source file {kv['src']} missing")
-                body = Body(Source.get(src_path), kv["fn"], closure=kv.get("closure"))
+                src_obj = Source.get(src_path)
+                r15 = []
+                if inline and inline.get(oname):
+                    from inline import inline_helpers
+                    src_obj, r15 = inline_helpers(src_obj, kv["fn"], inline[oname])
+                body = Body(src_obj, kv["fn"], closure=kv.get("closure"))
+                body.report.extend(r15)
                 # parameter names must agree with the template header
                 htoks = lex(header_text[header_text.index(m.group(0)):])
                 from lex import param_names
